@@ -8,7 +8,7 @@ THEOREMS = ["IsoVerif.Props.C26.C26_ids", "IsoVerif.Props.C26.C26_docs_hashed", 
 HARNESS = ("hx_printers", {"HX_ENGINE": "printers", "HX_PROP": "C26"})
 DRIVER = "drv_printers"
 # projects x {md5, sha256, md5+extra info, sha256+extra info, sha256+custom file name}
-CASES = {"quick": 110, "thorough": 5000}
+CASES = {"quick": 70, "thorough": 5000}
 TECHNIQUE = ("Lean 4 theorems about the plumbing of operation ids through generate_operation_text and the persisted-documents map (hash = opaque parameter), "
              "and an induction over the selection tree showing that compact and pretty operation texts differ only in insignificant characters outside string literals; "
              "byte-for-byte correspondence of entrypoint.ts / __refetch__N.ts / persisted documents JSON with the real compiler; real MD5/SHA-256 recomputed by the harness")
